@@ -111,6 +111,7 @@ pub fn e1_check(id: &str) -> Option<Check> {
         "C05" => {
             p.name = "cas";
             p.reuse = 50;
+            p.w_stall = 5;
             p.w_cas = 10;
             p.w_swap = 3;
             p.w_store = 3;
